@@ -250,10 +250,11 @@ class MultiLevelTransform(CompositeTransform):
             # more efficient in case of the composition of linear transformations.
             y = super().forward(points, grid)
         else:
-            u = torch.zeros_like(x)
+            # Out-of-place sum: members with groups = N > 1 map a single point set (batch size 1) to N point sets
+            u = None
             for i, transform in enumerate(self.transforms()):
                 y = transform.forward(x, grid=grid and i == 0)
-                u += y - x
+                u = y - x if u is None else u + (y - x)
             y = x + u
         return y
 
